@@ -208,6 +208,9 @@ SCRIPTED = [
     ("nested_dirs", [["rmdir", "out"]], [[["set", "src/lib/g3.in", "a"], ["del", "src/lib/g3.in"], ["set", "src/lib/g3.in", "a"]]]),
     ("glob_undeclared", [], [[["set", "src/g2.in", "b"]], [["del", "src/g2.in"]], [["set", "src/g3.in", "a"], ["set", "plan.py", "v2"]]]),
     ("glob_undeclared", [], [[["touch", "src/g1.in"], ["set", "s1.txt", "b"]], [["set", "plan.py", "v2"]], [["set", "src/g1.in", "b"]]]),
+    ("dir_glob", [], [[["mkdir", "cases/c3"], ["set", "cases/c3/inp.txt", "a"]], [["rmdir", "cases/c1"]]]),
+    ("dir_glob", [], [[["rmdir", "cases/c2"]], [["mkdir", "cases/c2"], ["set", "cases/c2/inp.txt", "b"]]]),
+    ("dir_glob", [], [[["mvdir", "cases/c2", "cases/c3"]]]),
     ("chain", [], [[["raw", "o1.txt", "user\n"], ["del", "s1.txt"]], [["set", "s1.txt", "a"]]]),
     ("chain", [], [[["raw", "o1.txt", "user\n"]], [["del", "o2.txt"], ["set", "s2.txt", "b"]]]),
     ("chain", [], [[["set", "s1.txt", "b"], ["set", "s1.txt", "a"]], [["del", "s1.txt"], ["set", "s1.txt", "a"]], [["del", "s1.txt"]]]),
